@@ -145,7 +145,7 @@ def check(run):
         cases.append(("hs/" + os.path.basename(path), path, generic, what))
         dist["hostile_schemas"] += 1
     # 2. mutants
-    nmut = 260 if quick else 12000
+    nmut = 260 if quick else 8000
     for bi, db in enumerate(bases):
         opl = op_lines(db, dumps, bi, quick)
         for m in range(nmut // len(bases)):
@@ -228,14 +228,6 @@ def check(run):
                                 l = "end err"
                             elif l.startswith("err "):
                                 l = "err"
-                            elif l.startswith("obj "):
-                                # names are lower-cased with Go's Unicode tables (invalid UTF-8 becomes U+FFFD); the model folds ASCII only:
-                                # names with bytes >= 0x80 are not compared
-                                f = l.split(" ")
-                                for k in (2, 3):
-                                    if k < len(f) and any(int(f[k][j:j + 2], 16) >= 0x80 for j in range(0, len(f[k]) - 1, 2)):
-                                        f[k] = "?"
-                                l = " ".join(f)
                             out_.append(l)
                         return out_
                     if m is not None and any("PANIC" in l or "DIVERGE" in l for l in m) and not bad:
